@@ -36,6 +36,7 @@ inductive Sys
   | writeFail (requested : Nat)
   | fsync (ok : Bool)
   | fdatasync (ok : Bool)
+  | ftruncate (len : Nat)                       -- preallocation of a fresh journal file
   deriving Repr, DecidableEq
 
 inductive PersistMode | buffer | syncData | syncAll
@@ -139,6 +140,8 @@ structure JDb where
   w : Writer := {}
   poisoned : Bool := false
   manual : Bool := false          -- manual_journal_persist
+  /-- sealed journal files: (content, length known durable) -/
+  sealed : List (Bytes × Nat) := []
   deriving Repr, DecidableEq
 
 inductive JOp
@@ -146,6 +149,7 @@ inductive JOp
   | clear (pieces : List Bytes)                             -- Keyspace::clear
   | batch (pieces : List Bytes) (dur : Option PersistMode)  -- WriteBatch::commit / tx commit
   | persist (mode : PersistMode)                            -- Database::persist
+  | rotate                                                  -- Writer::rotate (journal rotation)
   deriving Repr, DecidableEq
 
 inductive JRes | ok | io | poisoned
@@ -189,6 +193,16 @@ def jstep (db : JDb) : JOp → JDb × JRes
     match db.w.persist m with
     | (w', .err) => ({ db with w := w', poisoned := true }, .poisoned)
     | (w', .ok) => ({ db with w := w' }, .ok)
+  | .rotate =>
+    -- the active journal is sealed with persist(SyncAll); writing continues in a fresh file
+    if db.poisoned then (db, .poisoned) else
+    match db.w.persist .syncAll with
+    | (w', .err) => ({ db with w := w', poisoned := true }, .poisoned)
+    | (w', .ok) =>
+      -- `Writer::create_new`: preallocate the fresh file and sync it (no fault plan in rotation workloads)
+      ({ db with w := { w' with os := [], synced := 0, calls := w'.calls + 2,
+                                 trace := w'.trace ++ [.ftruncate 67108864, .fsync true] },
+                 sealed := db.sealed ++ [(w'.os, w'.synced)] }, .ok)
 
 def jrun (db : JDb) : List JOp → JDb × List JRes
   | [] => (db, [])
